@@ -39,7 +39,8 @@ func hostileWords(t *rapid.T, label string) string {
 	return strings.Join(ws, " ")
 }
 
-var benignFeats = []string{"list", "code", "empty", "plainhdr", "multifmt", "deephead"}
+// benign features: shapes whose only deviation is the exactly predicted effect of an open finding
+var benignFeats = []string{"list", "list", "list", "code", "code", "empty", "plainhdr", "multifmt", "deephead"}
 var wildFeats = []string{"md", "edge", "adjacent", "uscore", "codecombo", "pipe", "nogfm", "meta", "wrapfmt", "listlazy"}
 
 type gctx struct {
@@ -51,8 +52,9 @@ type gctx struct {
 
 func genCase(t *rapid.T) Case {
 	g := &gctx{t: t, f: map[string]bool{}}
-	mode := rapid.SampledFrom([]string{"clean", "clean", "clean", "clean", "clean", "clean", "clean", "clean", "clean",
-		"benign", "benign", "benign", "benign", "benign", "benign", "wild", "wild", "wild", "wild", "wild"}).Draw(t, "mode")
+	// rapid favours the first elements of a sample list: the modes are interleaved (measured: ~45/37/18 %)
+	mode := rapid.SampledFrom([]string{"clean", "benign", "wild", "benign", "clean", "benign", "clean", "wild", "benign", "clean",
+		"benign", "clean", "wild", "clean", "benign", "clean", "benign", "clean", "wild", "clean"}).Draw(t, "mode")
 	var feats []string
 	pickFrom := func(pool []string, n int, label string) {
 		for i := 0; i < n; i++ {
@@ -65,7 +67,7 @@ func genCase(t *rapid.T) Case {
 	}
 	switch mode {
 	case "benign":
-		pickFrom(benignFeats, rapid.IntRange(1, 2).Draw(t, "nb"), "bf")
+		pickFrom(benignFeats, rapid.IntRange(1, 3).Draw(t, "nb"), "bf")
 	case "wild":
 		pickFrom(wildFeats, rapid.IntRange(1, 2).Draw(t, "nw"), "wf")
 		pickFrom(benignFeats, rapid.IntRange(0, 1).Draw(t, "nb"), "bf")
@@ -331,5 +333,9 @@ func fixedCases() []Case {
 		{Mode: "fixed", Blocks: []Block{{K: "h", Level: 2, T: "Sub"}, {K: "h", Level: 6, T: "Deep"}, {K: "p", Runs: []Run{{T: "only"}}}, tbl, tbl},
 			O: Opts{GFM: true, Setext: true, Bullet: "+", Emph: "_", Wrap: true, MaxLen: 10}},
 		{Mode: "fixed", Blocks: []Block{{K: "li", T: "item one"}, {K: "li", T: "item two", Ord: true}, {K: "code", T: "x := 1"}, {K: "p", Runs: []Run{{T: "after"}}}}, O: def},
+		// every exact mask at once: table between paragraphs, items, code lines, empty paragraph, plain header, nested emphasis, Heading7
+		{Mode: "fixed", Blocks: []Block{{K: "p", Runs: []Run{{T: "before "}, {T: "both", B: true, I: true}}}, {K: "table", Cells: [][]string{{"h1", "h2"}, {"c", "d"}}},
+			{K: "li", T: "item"}, {K: "code", T: "a*b + c_d"}, {K: "code", T: "# not a heading"}, {K: "empty"}, {K: "h", Level: 7, T: "deep"}, {K: "p", Runs: []Run{{T: "after"}}}},
+			O: Opts{GFM: true, Bullet: "*", Emph: "*", MaxLen: 80, Meta: true}},
 	}
 }
